@@ -117,8 +117,10 @@ theorem ensemble_plane_entries (step : W → S → W) (detect : W → M) (w0 : W
   simp only [List.getElem_map, List.getElem_range]
   exact (h2 c (by simpa using h1')).2 j hj
 
-/-- `ensemble_mean`: any reduction `avg` over the ensemble axis (the arithmetic mean of `reduce_ensemble` in particular)
-of the ensemble run is the same reduction of the independent single-configuration results. -/
+/-- Corollary by congruence (no content beyond `ensemble_plane_entries`): any function `avg` of the per-configuration list
+gives the same value on the ensemble run and on the independent single-configuration results.  `reduce_ensemble` itself
+(which axes are averaged, intensities vs. complex waves) is NOT modelled; that clause of the property is checked by the
+numeric oracle only. -/
 theorem mean_eq_mean_of_singles {X : Type} (avg : List (Option M) → X) (step : W → S → W) (detect : W → M) (w0 : W)
     (p : Pot S) (ent : Bool) (ps : List Nat)
     (hp : p.planes = natPlanes ent ps) (hens : p.ensAxis = true) (hmulti : 2 ≤ p.configs.length)
@@ -198,5 +200,14 @@ example : (multisliceAndDetectFrom hstep hdetect htoReal true [] ⟨true, natPla
     (fun o => o.get [1, 0]) = some [0] := by decide
 example : configSeeds [2, 1] [11, 22, 33] = [11, 22, 33] := by decide
 example : partitionSeeds [2, 1] [11, 22, 33] = [[11, 22], [33]] := by decide
+
+/-- non-vacuity with the hypotheses of `ensemble_result` instantiated -/
+example : ∃ out, multisliceAndDetect hstep hdetect [] ⟨true, natPlanes true [1], 2, [[1, 2], [3, 4]]⟩ = .ok out ∧
+    ∀ (c : Nat) (hc : c < 2), (true = true → out.get (measurementIndex ⟨true, natPlanes true [1], 2, [[1, 2], [3, 4]]⟩ c 0)
+        = some (hdetect [])) ∧ ∀ (j : Nat) (hj : j < 1),
+      out.get (measurementIndex ⟨true, natPlanes true [1], 2, [[1, 2], [3, 4]]⟩ c (startIndex true + j))
+        = some (hdetect (waveAt hstep [] ([[1, 2], [3, 4]][c]) ([1][j] + 1))) :=
+  ensemble_result hstep hdetect [] ⟨true, natPlanes true [1], 2, [[1, 2], [3, 4]]⟩ true [1] rfl rfl (by decide) (by decide)
+    (by decide) (Or.inl rfl)
 
 end AbtemVerif.Props.C02
